@@ -6,7 +6,7 @@ all (currency pair, effective date) lookups are compared with a rate-table
 model (dict).  No pruning; the lookup fingerprint only counts distinct states.
 """
 import itertools
-from datetime import date
+from datetime import date, datetime
 from fractions import Fraction as F
 
 from .. import oracle as O
@@ -14,7 +14,8 @@ from ..core import Stats, guarded, pmap, h64
 from . import c09
 
 CUR = ['EUR', 'USD', 'JPY', 'TND']          # EUR = base, TND never quoted
-DATES = ['2020-03-15', '2020-03-16', '2020-04-01', '2021-01-01', None]
+DATES = ['2020-03-15', '2020-03-16', '2020-04-01', '2021-01-01',
+         '2020-03-15T17:45', None]
 DEFAULT_DATES = ['2020-03-15', '2021-01-01']
 
 VALIDITIES = {
@@ -28,6 +29,16 @@ from collections import namedtuple      # noqa: E402
 YearMonth = namedtuple('YearMonth', 'year month')
 VALIDITIES['m03nt'] = YearMonth(2020, 3)        # a tuple subclass
 VALIDITIES['m03t3'] = (2020, 3, 15)             # more than two entries
+VALIDITIES['m03ss'] = ('2020', '03')            # documented: two strings
+VALIDITIES['bad13ss'] = ('2020', '13')
+
+
+class Year(int):
+    """an int sub-class (like an IntEnum member)"""
+
+
+VALIDITIES['y2020sub'] = Year(2020)
+VALIDITIES['d15dt'] = datetime(2020, 3, 15, 9, 30)      # a datetime is a date
 V_QUICK = ['none', 'y2020', 'y2020s', 'm03', 'd15s', 'bad13']
 V_ALL = list(VALIDITIES)
 
@@ -48,6 +59,8 @@ SPECS = {
                ['USD', 'D:1.3', 'i:1'], ['s:JPY', 'i:130', 'i:1'],
                ['JPY', 'i:140', 'i:1'], ['s:JPY', 'i:150', 'i:1']],
     'usdf': [['USD', 'f:1.0000005', 'i:1'], ['JPY', 'f:8.5000015', 'i:1']],
+    # unit multiples that are no power of ten, rates below 1/10
+    'odd5': [['USD', 'D:0.3', 'i:5'], ['JPY', 'F:2/100', 'i:25']],
 }
 S_QUICK = ['usd11', 'jpy', 'usdstr', 'ok+bad']
 S_ALL = list(SPECS)
@@ -66,9 +79,9 @@ def parse_validity(v):
     if isinstance(v, int):
         if not 1 <= v <= 9999:
             raise Reject
-        return v, 'year'
+        return int(v), 'year'
     if isinstance(v, date):
-        return v, 'day'
+        return date(v.year, v.month, v.day), 'day'
     if isinstance(v, tuple):
         try:
             y, m = int(v[0]), int(v[1])
@@ -93,7 +106,7 @@ def parse_validity(v):
 
 def period_of(d, kind):
     return {'none': None, 'year': d.year, 'month': (d.year, d.month),
-            'day': d}[kind]
+            'day': date(d.year, d.month, d.day)}[kind]
 
 
 class Model:
@@ -157,8 +170,15 @@ F_ALL = ['list', 'tuple', 'iter', 'gen', 'map']
 
 
 class Cell:
+    """the configured callable; a callable object may well be falsy (a
+    queue of pending value dates that is empty right now), it still is the
+    configured callable"""
+
     def __init__(self, d):
         self.d = d
+
+    def __len__(self):
+        return 0
 
     def __call__(self):
         return self.d
@@ -202,8 +222,7 @@ def run_history(hist, st=None):
             st.transitions += 1
             st.outcomes[f'update-{want}'] += 1
         if got != want:
-            if vn == 'bady0' or (isinstance(VALIDITIES[vn], tuple)
-                                 and isinstance(VALIDITIES[vn][0], str)):
+            if vn == 'bady0':
                 return out    # admissible either way (see DESIGN)
             earlier_rejected = any(r == 'reject' for r in results)
             vkind = 'invalid-validity' if vn.startswith('bad') else \
@@ -239,7 +258,8 @@ def lookups(conv, model, cell, hist, st):
         for ds in DATES:
             if ds is not None and dflt != DEFAULT_DATES[0]:
                 continue        # explicit dates do not depend on the default
-            d = None if ds is None else date.fromisoformat(ds)
+            d = None if ds is None else datetime.fromisoformat(ds) \
+                if 'T' in ds else date.fromisoformat(ds)
             eff = cell.d if d is None else d
             for uc in CUR:
                 for tc in CUR:
@@ -474,7 +494,9 @@ def run(tier, seed):
         vq = V_QUICK + [['y2021', 'm04', 'd16'][k]]
         sq = S_QUICK + [['bad+ok', 'both', 'base'][k]]
         runs.append(([(v, s) for v in vq for s in sq], 3))
-        runs.append(([(v, s) for v in V_ALL for s in S_ALL], 2))
+        s2 = sq + ['odd5']
+        runs.append(([(v, s) for v in V_ALL for s in S_ALL
+                      if v in vq or s in s2], 2))
     vf, sf = ['none', 'y2020', 'm03'], ['usd11', 'usd12', 'ok+bad', 'both']
     runs.append(([(v, s_, f) for v in vf for s_ in sf for f in F_ALL],
                  3 if tier == 'thorough' else 2))
